@@ -103,6 +103,26 @@ RULES = [
 ]
 
 
+def auto_power_pair(chk):
+    """the statement's 'general real with complex-conjugate eigenvalue pairs, all 1 <= k <= n' meets the Auto rule's choice of power iteration for k = 1, 'LM': on a real
+    operator whose two dominant eigenvalues are a complex-conjugate pair the real iteration has no eigenvector to converge to (bounded: one concrete operator; the native
+    differential leaves this case out, it is decided here and listed as known finding C10-auto-power-iteration-complex-pair)"""
+    import json
+    import subprocess
+    import time
+    from vcgen.core import DISCHARGED, FAILED, Ob
+    t0 = time.time()
+    p = subprocess.run(["/venv/bin/python", "-W", "ignore", "/verif/findings/C10_auto_power_iteration_complex_pair.py"], cwd="/repo", capture_output=True, text=True, timeout=300)
+    ok = p.returncode == 0
+    ob = Ob(key="C10/eig(Auto, k=1, LM) on a real operator whose dominant eigenvalues are a complex-conjugate pair returns an eigenpair/bounded(1 concrete operator)",
+            fn="cola.linalg.eig.eigs.eig", clause="every returned pair satisfies A v = lambda v", engine="BOUNDED", bounded=True, status=DISCHARGED if ok else FAILED,
+            backend="real entry point on a concrete operator", secs=time.time() - t0, detail=(p.stdout + p.stderr)[-400:])
+    if not ok:
+        ob.witness = dict(engine="direct", failing_input_found=p.returncode == 1, input="eig(Dense([[0,-3,0],[3,0,0],[0,0,1]]), 1, 'LM') with the default algorithm",
+                          observed=p.stdout[-300:], expected="an eigenvalue of largest magnitude (+-3j) with its eigenvector")
+    chk.add(ob)
+
+
 def run(chk):
     chk.level = "proof"
     from props import alg_forwarding
@@ -114,6 +134,7 @@ def run(chk):
     # reported annotations as hypotheses; C05 owns their truth and lists open findings, so the combination is observed here on the property's own observable)
     from props import native_diff
     native_diff.run(chk, "C10")
+    auto_power_pair(chk)
     chk.trust("vcgen/idx.py: NumPy indexing primitives as index transformers, slice.indices contract")
     chk.trust("dependency contracts: xnp.eig(M) = (w, V) with M V = V diag(w), V invertible, w in unspecified order; xnp.eigh(M) the same with w real "
               "ascending and V unitary; xnp.argsort a sorting bijection (real: by value, complex: by an uninterpreted total order)")
